@@ -1,5 +1,6 @@
 """C07 — the query-result cache never serves stale or foreign results."""
 from vlib.mo import *
+import re
 from vlib.runner import KH, run_kani_group, run_mir_obligations
 
 LEVEL = "other"
@@ -15,6 +16,29 @@ GEN_BUMP = call(r"= Atomic::<u64>::fetch_add\(", name="invalidation_generation.f
 STATE_WRITE = call(r"= RwLock::<(query_hash_cache::)?QueryCacheState>::write\(", name="state.write()")
 GEN_LOAD = call(r"= Atomic::<u64>::load\(", name="invalidation_generation.load")
 CACHE_INSERT = call(r"= HashMap::<(query_hash_cache::)?QueryCacheKey, CachedQueryResult>::insert\(", name="state.cache.insert")
+
+def _store_decision(F):
+    """insert_with_k_scoped_internal: a result list is stored only if no expected generation was given or the generation read
+    UNDER the state write lock (the second load) equals it — for all values (DECIDES).  The first, unlocked comparison is only
+    an early exit."""
+    from vlib import mirdec as MD
+    fc = FnCheck(F, Q + "insert_with_k_scoped_internal")
+    if fc.fn is None:
+        return [fc.missing()]
+    fn = fc.fn
+    loads = sorted(i for i, b in fn.blocks.items() if not b.cleanup and b.kind == "call" and re.search(r"Atomic::<u64>::load$", re.sub(r"::<[^>]*>$", "", (b.callee or "").replace("std::sync::atomic::", ""))))
+    wr = sorted(i for i, b in fn.blocks.items() if not b.cleanup and STATE_WRITE.match_block(fn, b))
+    if len(loads) < 2 or not wr:
+        return [Result("inconclusive", "expected two generation loads and a state write lock in insert_with_k_scoped_internal, found %d / %d" % (len(loads), len(wr)))]
+    locked = [i for i in loads if i > wr[0]]
+    if not locked:
+        return [Result("violated", "the generation is no longer re-read after the state write lock is taken: a store racing with an invalidation can land after it",
+                       sample={"fn": fc.name, "kind": "PRECEDES", "A": STATE_WRITE.name, "B": "generation.load()"})]
+    T = "\u27e8bb%d\u27e9" % locked[0]
+    atoms = [("gen_locked", r"^call Atomic::<u64>::load$", re.escape(T)), ("expected", r"^\(\(\{arg\(_6: Option<u64>\)\} as Some\)\.0: u64\)$"), ("has_expected", r"^discr:arg\(_6: Option<u64>\)$")]
+    return MD.decides(F, Q + "insert_with_k_scoped_internal", "entry", {"store": CACHE_INSERT}, atoms, {"store": ("=>", "(or (= has_expected 0) (= gen_locked expected))")},
+                      what="QueryHashCache stores a result list only if the generation read under the state lock still equals the one captured before the search")
+
 
 def _hit_decision(F):
     from vlib import mirdec as MD
@@ -33,13 +57,14 @@ MOS = [
        functions=[("query_hash_cache.rs", f) for f in ("clear", "invalidate_doc", "invalidate_for_insert")]),
     MO("O7.3/conditional_store", "insert_with_k_scoped_internal: the generation is re-checked under the state write lock; the store happens with the lock held and only if the generation is unchanged",
        allof(held(Q + "insert_with_k_scoped_internal", STATE_WRITE, CACHE_INSERT),
-             only_via(Q + "insert_with_k_scoped_internal", CACHE_INSERT, Arm(r"^Ne\(call Atomic::<u64>::load, ", {"0"}, name="generation unchanged (under the lock)", nth=1),
-                      assume=[Arm(r"^discr\(arg\(_6: Option<u64>\)\)$", {"1"}, name="expected_generation is Some")]),
+             # (the generation comparison itself is decided value-level by O7.3/store_decision)
              precedes(Q + "insert_with_k_scoped_internal", STATE_WRITE, CACHE_INSERT),
              lambda F: _gen_load_under_lock(F)),
        functions=[("query_hash_cache.rs", "insert_with_k_scoped_internal")]),
     MO("O7.5/unique_ids", "QueryHashCache::invalidate_doc / unique_result_doc_ids: keys / ids are sorted before Vec::dedup, so the reverse index holds each (doc, key) pair once and invalidation visits each key once",
        sorted_before_dedup(r"^query_hash_cache::QueryHashCache::(invalidate_doc|unique_result_doc_ids)$"), functions=[("query_hash_cache.rs", "invalidate_doc"), ("query_hash_cache.rs", "unique_result_doc_ids")]),
+    MO("O7.3/store_decision", "insert_with_k_scoped_internal: store => no expected generation, or generation (re-read under the state write lock) == expected — for all values (DECIDES)",
+       lambda F: _store_decision(F), functions=[("query_hash_cache.rs", "insert_with_k_scoped_internal")]),
     MO("O7.2/hit_decision", "get_scoped: an exact hit (cached results copied and served) happens only when the key is cached and cached.requested_k >= k — proved for all values of the two counts (DECIDES)",
        lambda F: _hit_decision(F), functions=[("query_hash_cache.rs", "get_scoped")]),
     MO("O7.2/k_and_scope", "get_scoped: the key carries the scope; insert_with_k_scoped_if_generation passes Some(expected_generation)",
